@@ -108,6 +108,10 @@ class Sim:
                 h(signum, None)
         elif kind == "stop":
             r.stop()
+        elif kind.startswith("stall:"):
+            # the process was stalled (busy callback, suspended machine): the clock jumps, so that
+            # several timed calls may be due in one iteration
+            self.now += float(kind.split(":")[1])
         elif kind.startswith("readable"):
             for s in list(r._readers):
                 if isinstance(s, FakeSelectable):
